@@ -3,6 +3,7 @@
 //! Part 1 (`ipa.rs`): the inner-product argument of the light aggregator.
 use mzkh::Ctx;
 
+mod aggregator;
 mod gadget;
 mod ipa;
 
@@ -46,16 +47,47 @@ fn inner_shapes() -> Vec<(FamParams, u32)> {
     ]
 }
 
+/// A random family member restricted to what the in-circuit verifier supports: one phase, no
+/// challenge, at least one instance column.
+fn sample_supported(rng: &mut rand_chacha::ChaCha8Rng) -> FamParams {
+    let mut fp = mzkh::family::sample_params(rng);
+    fp.n_adv1 = 0;
+    fp.gates.retain(|g| *g != GateKind::Chal);
+    if fp.gates.is_empty() {
+        fp.gates.push(GateKind::Mul);
+    }
+    if fp.n_committed + fp.n_plain == 0 {
+        fp.n_plain = 1;
+    }
+    fp
+}
+
 fn run_gadget(ctx: &mut Ctx) {
+    use rand::Rng;
     let mut setup = gadget::Setup::new();
+    let mut rng = ctx.rng("gadget");
     let shapes = inner_shapes();
-    let (n_shapes, n_mut) = match ctx.tier.as_str() {
-        "quick" => (2, 4),
-        "thorough" => (shapes.len(), 12),
-        _ => (3, 8),
+    let (n_random, n_mut) = match ctx.tier.as_str() {
+        "quick" => (10, 6),
+        "thorough" => (60, 16),
+        _ => (20, 10),
     };
-    for (i, (fp, extra_k)) in shapes.iter().take(n_shapes).enumerate() {
+    for (i, (fp, extra_k)) in shapes.iter().enumerate() {
         gadget::run_light(ctx, &mut setup, fp, *extra_k, 500 + i as u64, n_mut);
+    }
+    for i in 0..n_random {
+        let fp = sample_supported(&mut rng);
+        let extra_k = if rng.gen_bool(0.3) { rng.gen_range(1..=3) } else { 0 };
+        gadget::run_light(ctx, &mut setup, &fp, extra_k, 600 + i as u64, n_mut);
+    }
+    // foreign-curve back-end (big circuits)
+    let n_foreign = match ctx.tier.as_str() {
+        "quick" => 1,
+        "thorough" => shapes.len(),
+        _ => 1,
+    };
+    for (i, (fp, extra_k)) in shapes.iter().take(n_foreign).enumerate() {
+        gadget::run_foreign(ctx, &mut setup, fp, *extra_k, 700 + i as u64, 18, if ctx.quick() { 1 } else { 3 });
     }
 }
 
@@ -94,6 +126,15 @@ fn main() {
     }
     if only.as_deref().map_or(true, |o| o == "gadget") {
         run_gadget(&mut ctx);
+    }
+    if only.as_deref().map_or(ctx.thorough(), |o| o == "agg") {
+        // LightAggregator through its public API: thorough tier only (minutes)
+        let nc = if ctx.thorough() { 3 } else { 1 };
+        aggregator::run::<1>(&mut ctx, false, 15, 901, nc);
+        aggregator::run::<1>(&mut ctx, true, 15, 904, nc);
+        aggregator::run::<2>(&mut ctx, true, 15, 905, nc);
+        aggregator::run::<2>(&mut ctx, false, 15, 902, nc);
+        aggregator::run::<3>(&mut ctx, true, 15, 903, nc);
     }
     ctx.finish();
 }
